@@ -6,16 +6,17 @@ SPEC = dict(
     allowed_axioms=[],
     harness_timeout=1500,
     level_text=("Partial. Unbounded Coq theorems about checked-profile (overflow-checks + debug-assertions) models of the arithmetic "
-                "kernels that font data reaches: for every kernel either `no_trap` over the whole argument type (hint math floor/mul/div/"
-                "mul_div/mul14/normalize14 shift, Fixed fract/from_i32/to_* conversions, glyf midpoint, fvar normalize, avar apply, cmap4 "
-                "map_codepoint+lookup_glyph_id, codegen count transforms, compute_checksum) or the exact trap-free domain as an iff "
-                "(hint math round/ceil/floor_pad/round_pad, every RoundState::round mode, Fixed/F26Dot6/F2Dot14 Neg and abs, "
-                "max_value_bitmap_len) with `_trap_refuted` witnesses; SROUND/S45ROUND parameter reachability is proved by a complete "
-                "256-selector table. The models are tied to the code on every run by vm_compute correspondence on ~36k operand tuples "
-                "(including SROUND+ROUND executed by the real interpreter from a synthetic font). The bulk of the property is an "
-                "implementation-only strict-profile search: generated TrueType bytecode pushing extreme operands into every "
-                "arithmetic/rounding/delta/move instruction, and value-extreme field mutations of the test fonts followed by the skrifa "
-                "draw/metrics/paint APIs, klippa and IFT selection; every overflow/assertion panic is reported keyed by source site."),
+                "kernels that font data reaches: every kernel is proved trap-free on its whole argument type (hint math floor/round/ceil/"
+                "floor_pad/round_pad/mul/div/mul_div/mul_div_no_round/mul14/normalize14 shift, every RoundState::round mode for every distance "
+                "— Super45 for every period other than 0/-1, which SROUND/S45ROUND cannot install: complete 256-selector table —, "
+                "Fixed/F26Dot6/F2Dot14 Neg, abs, fract, from_i32, to_* conversions, glyf midpoint, fvar normalize, avar apply, cmap4 "
+                "map_codepoint+lookup_glyph_id, codegen count transforms, compute_checksum), with value theorems showing the repaired "
+                "(explicitly wrapping) kernels compute the unwrapped result wherever the old code did not trap. The models are tied to the code "
+                "on every run by vm_compute correspondence on ~36k operand tuples (including SROUND+ROUND executed by the real interpreter from "
+                "a synthetic font). The bulk of the property is an implementation-only strict-profile search: generated TrueType bytecode "
+                "pushing extreme operands into every arithmetic/rounding/delta/move instruction, and value-extreme field mutations of the test "
+                "fonts followed by the skrifa draw/metrics/paint APIs, klippa and IFT selection/application; every overflow/assertion panic is "
+                "reported keyed by source site (klippa sites: known findings)."),
     level_note=("Not proved: every arithmetic site outside the modelled kernels (the large majority by count — the evidence's "
                 "`census` gives sites translated vs. arithmetic expressions found lexically in the anchored files). Those are covered "
                 "only by the search. Trusted: Coq kernel; hand-written model (agreement checked, not proved); generators."),
